@@ -1,5 +1,5 @@
 PROP = dict(
-    modules=["Shangrla.Props.C16", "Shangrla.Props.C16Run"],
+    modules=["Shangrla.Props.C16", "Shangrla.Props.C16Run", "Shangrla.Props.C16Total"],
     theorems=["Shangrla.C16.tileTo_spec", "Shangrla.C16.firstCrossing_spec", "Shangrla.C16.det_first_crossing",
               "Shangrla.C16.comparisonPop_spec", "Shangrla.C16.comparisonPop_ok_iff", "Shangrla.C16.marks_unit",
               "Shangrla.C16.assumed_population_comparison", "Shangrla.C16.assumed_population_polling",
@@ -10,7 +10,16 @@ PROP = dict(
               "Shangrla.C16.maxOf_spec", "Shangrla.C16.contest_is_max", "Shangrla.C16.audit_contest_is_max",
               "Shangrla.C16.auditInj_is_max", "Shangrla.C16.auditInj_eq", "Shangrla.C16.audit_per_contest",
               "Shangrla.C16.audit_order_irrelevant", "Shangrla.C16.auditTotalNoStyle_spec",
-              "Shangrla.C16.interleave_classes", "Shangrla.C16.interleave_counts"],
+              "Shangrla.C16.interleave_classes", "Shangrla.C16.interleave_counts",
+              # the style tail of Audit.find_sample_size (Props/C16Total.lean)
+              "Shangrla.C16.oldSize_style", "Shangrla.C16.style_p_sampled", "Shangrla.C16.style_p_eq_spec",
+              "Shangrla.C16.style_p_unsampled", "Shangrla.C16.style_p_none", "Shangrla.C16.style_p_range",
+              "Shangrla.C16.style_total_eq_ceil", "Shangrla.C16.style_total_ge_sampled",
+              "Shangrla.C16.style_total_bounds", "Shangrla.C16.style_p_mono", "Shangrla.C16.style_total_mono",
+              "Shangrla.C16.raised_set", "Shangrla.C16.style_p_perm", "Shangrla.C16.style_total_perm",
+              "Shangrla.C16.style_order_irrelevant", "Shangrla.C16.style_order_matters",
+              "Shangrla.C16.style_not_monotone_unguarded", "Shangrla.C16.style_single",
+              "Shangrla.C16.auditTotal_style", "Shangrla.C16.auditTotal_nostyle"],
     groups={"samplesize": (1200, 12000)},
     design_ref="DESIGN.md section 5, C16",
     assumptions=[
@@ -18,7 +27,14 @@ PROP = dict(
         "the random tails prng.choice(x, size) of the simulation branch are an argument of the model (universally "
         "quantified in the theorems); the harness reproduces them from np.random.RandomState(seed)",
         "Audit.find_sample_size: modelled are the loop over contests, the maximum over the unproved assertions of "
-        "each contest, the ONEAudit error injection and the total returned without style information; "
-        "mvrs_to_data results are inputs; the cvr.p / total computation with style information is not modelled",
+        "each contest, the ONEAudit error injection, old_sizes, every cvr.p and the returned total of both branches "
+        "(style: math.ceil of the sum of p over the non-phantom cards, with numpy's inf/nan for a zero divisor; no style: "
+        "the largest contest estimate); mvrs_to_data results are inputs",
+        "the style-tail theorems (p is the largest ratio, range, bounds of the total, monotonicity, order-irrelevance, "
+        "single-contest sanity) carry the explicit guard that every contest listed on an unsampled card has "
+        "cards - (its cards already sampled) > 0 (order-irrelevance: only that no ratio is 0/0); without it "
+        "order-irrelevance and monotonicity are false for the code (style_order_matters, style_not_monotone_unguarded, "
+        "both replayed on the real code); the float rounding of the sum before math.ceil is not modelled (cases whose "
+        "exact sum is within 1e-9 of an integer are excluded from the diff as fragile)",
     ],
 )
